@@ -136,7 +136,7 @@ func (a *ordA) pure(fn *ssa.Function) bool {
 			case *ssa.Go, *ssa.Send, *ssa.Select:
 				ok = false
 			case ssa.CallInstruction:
-				if !a.pureCall(x) {
+				if !a.pureCall(x) && !localAccumulatorCall(a.c, x, fn) {
 					ok = false
 				}
 			}
@@ -1126,4 +1126,35 @@ func atMostOneEdge(b *ssa.BasicBlock, si int, inFam func(ssa.Value) bool) bool {
 		return !truth && k <= 1
 	}
 	return false
+}
+
+// localAccumulatorCall: a method call on a strings.Builder / bytes.Buffer that is a local variable of fn
+// and is used only as the receiver of such calls: its effects are confined to fn's own invocation, so a
+// caller observes none. (Inside fn itself the write order still matters: the loop-body rule O2 does not use this.)
+func localAccumulatorCall(c *Ctx, ci ssa.CallInstruction, fn *ssa.Function) bool {
+	n := c.calleeName(ci.Common())
+	if !strings.HasPrefix(n, "(*strings.Builder).") && !strings.HasPrefix(n, "(*bytes.Buffer).") {
+		return false
+	}
+	al, ok := ci.Common().Args[0].(*ssa.Alloc)
+	if !ok || al.Parent() != fn || al.Referrers() == nil {
+		return false
+	}
+	for _, ref := range *al.Referrers() {
+		switch r := ref.(type) {
+		case *ssa.DebugRef:
+		case ssa.CallInstruction:
+			rn := c.calleeName(r.Common())
+			if !(strings.HasPrefix(rn, "(*strings.Builder).") || strings.HasPrefix(rn, "(*bytes.Buffer).")) || r.Common().Args[0] != ssa.Value(al) {
+				return false
+			}
+		case *ssa.Store:
+			if r.Addr != ssa.Value(al) { // the variable's address is stored somewhere
+				return false
+			}
+		default:
+			return false
+		}
+	}
+	return true
 }
